@@ -18,7 +18,8 @@ from `desired`, not the one already converted); (R3) only UnitOperationError/Uni
 verdict, rtol with units raises, assert_allclose_units forwards all arguments and raises AssertionError exactly on a False
 verdict, array_equal/array_equiv/assert_array_equal_units compare units with ==/!= and refuse on difference; (R4) the
 accepts/returns decorators compare dimensions with == (never identity), treat unit-less values as dimensionless, raise
-TypeError before the wrapped function is called (accepts) and return exactly what it returned (returns)."""
+TypeError before the wrapped function is called (accepts) and return exactly what it returned (returns).
+(R1, extended) the relative tolerance is reduced to the unit `dimensionless` before it is stripped (5 percent is 0.05)."""
 LEVEL_NOTE = """Undecided: the tolerance arithmetic of np.allclose itself and the verdict on concrete numbers."""
 EXPLANATION = LEVEL_TEXT
 ASSUMPTIONS = ["np.allclose / np.testing.assert_array_equal behave as documented"]
